@@ -405,3 +405,214 @@ Proof.
     + rewrite (S1 k Hk). apply ok9_enc.
     + rewrite (S2 k Hk). apply cons_bits, HC.
 Qed.
+
+(** ** 6. G3: the abstraction of the result *)
+Lemma cr_remove_bit cr r i : i < 2 ->
+  N.testbit (cr_remove cr r) i = N.testbit cr i && negb (N.testbit r i).
+Proof.
+  intro Hi. unfold cr_remove, lnot64. rewrite !N.land_spec, N.lxor_spec.
+  change M64 with (N.ones 64). rewrite N.ones_spec_low by lia.
+  change 3 with (N.ones 2). rewrite N.ones_spec_low by exact Hi.
+  rewrite andb_true_r. destruct (N.testbit r i); reflexivity.
+Qed.
+
+(** a castling right that is still there is backed by two own men on their home squares; so
+    the destination (not own) respectively the source (own) of the other side's test is
+    irrelevant *)
+Lemma touch_agree p me c s d moved x1 x2 t1 t2 :
+  at_ p s = Some (moved, me) -> own p me d = false ->
+  at_ p x1 = Some (t1,c) -> at_ p x2 = Some (t2,c) ->
+  let x := if color_eqb me c then s else d in
+  ((x =? x1) || (x =? x2)) = (((s =? x1) || (d =? x1)) || ((s =? x2) || (d =? x2))).
+Proof.
+  intros Hs Hd H1 H2. cbv zeta.
+  destruct (color_eqb me c) eqn:Ec.
+  - apply color_eqb_eq in Ec. subst c.
+    assert (N1 : (d =? x1) = false).
+    { apply N.eqb_neq. intros ->. unfold own, colour_at in Hd. rewrite H1, color_eqb_refl in Hd. discriminate. }
+    assert (N2 : (d =? x2) = false).
+    { apply N.eqb_neq. intros ->. unfold own, colour_at in Hd. rewrite H2, color_eqb_refl in Hd. discriminate. }
+    rewrite N1, N2, !orb_false_r. reflexivity.
+  - assert (N1 : (s =? x1) = false).
+    { apply N.eqb_neq. intros ->. rewrite H1 in Hs. injection Hs as _ ->. rewrite color_eqb_refl in Ec. discriminate. }
+    assert (N2 : (s =? x2) = false).
+    { apply N.eqb_neq. intros ->. rewrite H2 in Hs. injection Hs as _ ->. rewrite color_eqb_refl in Ec. discriminate. }
+    rewrite N1, N2. reflexivity.
+Qed.
+
+Lemma right_step p me c s d moved (cr:N) (i:N) (hk hr:N) (x:N) (right:bool) :
+  i < 2 -> x < 64 ->
+  at_ p s = Some (moved, me) -> own p me d = false ->
+  x = (if color_eqb me c then s else d) ->
+  right = N.testbit cr i ->
+  implb right (has p hk King c && has p hr Rook c) = true ->
+  N.testbit (square_to_castle_rights c x) i = ((x =? hk) || (x =? hr)) ->
+  N.testbit (cr_remove cr (square_to_castle_rights c x)) i
+  = right && negb (((s =? hk) || (d =? hk)) || ((s =? hr) || (d =? hr))).
+Proof.
+  intros Hi Hx Hs Hd Ex Er Himp Hm. rewrite (cr_remove_bit _ _ _ Hi), Hm, <- Er.
+  destruct right; [|reflexivity]. cbn [implb] in Himp. apply andb_prop in Himp as [H1 H2].
+  apply has_iff in H1, H2. cbn [andb]. f_equal. rewrite Ex.
+  exact (touch_agree p me c s d moved hk hr King Rook Hs Hd H1 H2).
+Qed.
+
+Lemma color_eqb_sym_opp c : color_eqb (opp c) c = false.
+Proof. destruct c; reflexivity. Qed.
+
+(** the board [set_ep] looks at, square by square *)
+Lemma base_bits b moved s d : Consistent b -> s < 64 -> d < 64 -> s <> d ->
+  at_ (abs_board b) s = Some (moved, stm b) -> own (abs_board b) (stm b) d = false ->
+  forall k, k < 64 ->
+  bitsat (apply_togs b (base_togs b moved s d)) k
+  = enc (if k =? d then Some (moved, stm b) else if k =? s then None else at_ (abs_board b) k).
+Proof.
+  intros HC Hs Hd Hne Ha Hown k Hk.
+  rewrite bitsat_apply_togs, fold_tog9_at, (bitsat_enc b k HC Hk).
+  change (base_togs b moved s d)
+    with ([(moved,s,stm b);(moved,d,stm b)] ++ cap_tog (piece_on b d) d (stm b)).
+  exact (proj1 (shape_plain (at_ (abs_board b)) s d (stm b) Hne moved (piece_on b d) Ha
+                 (dst_cap b d HC Hd Hown) k)).
+Qed.
+
+Lemma ep_word_bits b moved s d k : Consistent b -> s < 64 -> d < 64 -> s <> d ->
+  at_ (abs_board b) s = Some (moved, stm b) -> at_ (abs_board b) d = None -> k < 64 ->
+  N.testbit (ep_word (apply_togs b (base_togs b moved s d)) (opp (stm b)) d) k
+  = (N.testbit (get_adjacent_files (sq_file d)) k && N.testbit (get_rank (sq_rank d)) k)
+    && has (abs_board b) k Pawn (opp (stm b)).
+Proof.
+  intros HC Hs Hd Hne Ha Hd0 Hk.
+  assert (Hown : own (abs_board b) (stm b) d = false) by (unfold own, colour_at; rewrite Hd0; reflexivity).
+  pose proof (base_bits b moved s d HC Hs Hd Hne Ha Hown k Hk) as Hb.
+  set (r1 := apply_togs b (base_togs b moved s d)) in *.
+  unfold ep_word. rewrite !N.land_spec.
+  change (N.testbit (pP r1) k) with (pget Pawn (bitsat r1 k)).
+  rewrite <- cget_bitsat, Hb, pget_enc, cget_enc, <- andb_assoc. f_equal.
+  destruct (N.eqb_spec k d) as [->|Hkd].
+  - unfold has. rewrite Hd0. rewrite color_eqb_sym_opp. apply andb_false_r.
+  - destruct (N.eqb_spec k s) as [->|Hks].
+    + unfold has. rewrite Ha. rewrite color_eqb_sym_opp. symmetry. apply andb_false_r.
+    + unfold has. destruct (at_ (abs_board b) k) as [[q c']|]; reflexivity.
+Qed.
+
+Lemma ep_word_existsb b moved s d : Consistent b -> s < 64 -> d < 64 -> s <> d ->
+  at_ (abs_board b) s = Some (moved, stm b) -> at_ (abs_board b) d = None ->
+  negb (ep_word (apply_togs b (base_togs b moved s d)) (opp (stm b)) d =? 0)
+  = existsb (fun dir => match step d dir with
+                        | Some x => has (abs_board b) x Pawn (opp (stm b)) | None => false end)
+            [(1,0);(-1,0)]%Z.
+Proof.
+  intros HC Hs Hd Hne Ha Hd0.
+  set (W := ep_word (apply_togs b (base_togs b moved s d)) (opp (stm b)) d).
+  pose proof (fun k => ep_word_bits b moved s d k HC Hs Hd Hne Ha Hd0) as Hbits. fold W in Hbits.
+  destruct (existsb _ _) eqn:E.
+  - apply existsb_exists in E as [dir [Hin Hx]].
+    destruct (step d dir) as [x|] eqn:Es; [|discriminate Hx].
+    pose proof (step_lt _ _ _ Es) as Hx64.
+    assert (Hb : N.testbit W x = true).
+    { rewrite (Hbits x Hx64), Hx, (adj_geom d x Hd Hx64), andb_true_r.
+      apply existsb_exists. exists dir. split; [exact Hin|]. rewrite Es. cbn [oN_eqb]. apply N.eqb_refl. }
+    apply negb_true_iff, N.eqb_neq. intro H0. rewrite H0, N.bits_0 in Hb. discriminate Hb.
+  - apply negb_false_iff, N.eqb_eq, N.bits_inj_0. intro k.
+    destruct (N.lt_ge_cases k 64) as [Hk|Hk].
+    + rewrite (Hbits k Hk), (adj_geom d k Hd Hk).
+      destruct (existsb (fun dir => oN_eqb (step d dir) (Some k)) side_dirs2) eqn:E2; [|reflexivity].
+      apply existsb_exists in E2 as [dir [Hin Hx]]. apply oN_eqb_eq in Hx.
+      cbn [andb]. destruct (has (abs_board b) k Pawn (opp (stm b))) eqn:Hh; [|reflexivity].
+      exfalso. assert (Et : existsb (fun dir0 => match step d dir0 with
+                        | Some x => has (abs_board b) x Pawn (opp (stm b)) | None => false end)
+            [(1,0);(-1,0)]%Z = true).
+      { apply existsb_exists. exists dir. split; [exact Hin|]. rewrite Hx. exact Hh. }
+      rewrite Et in E. discriminate E.
+    + unfold W, ep_word. rewrite !N.land_spec.
+      rewrite (BitsFacts.testbit_high _ k (rank_word_lt64 d Hd) Hk), andb_false_r. reflexivity.
+Qed.
+
+Theorem step_abs b m b' : StepHyp b m ->
+  make_move_new b (src m) (dst m) (promo m) = Some b' ->
+  abs_board b' = apply (abs_board b) m.
+Proof.
+  intros H E. pose proof (step_squares b m b' H E) as [_ [S2 HC']].
+  destruct (step_master b m H)
+    as [moved [b2 [E2 [Ha [Hs [Hd [Hown [_ [_ [_ [_ [D3 [D4 [D5 D6]]]]]]]]]]]]]].
+  rewrite E in E2. injection E2 as <-.
+  destruct (step_hyp_parts b m H) as [HC [Hok [Hwf [_ Hk]]]].
+  destruct H as [_ HV _ _]. destruct (pos_valid_parts _ HV) as [V1 [V2 [V3 [V4 _]]]].
+  destruct (move_kind_dst _ _ Hs Hk) as [_ Hne].
+  apply pos_ext.
+  - (* placement *)
+    apply placement_ext; [apply abs_len|rewrite length_apply; apply abs_len|].
+    intros k Hk64. rewrite <- !at_atl, (at_abs_dec b' k Hk64). exact (S2 k Hk64).
+  - exact D3.
+  - (* wk *)
+    unfold abs_board at 1. cbn [wk]. unfold cr_has_kingside. rewrite D4, wk_apply. unfold touch.
+    apply (right_step (abs_board b) (stm b) White (src m) (dst m) moved (crW b) 0 4 7); try assumption;
+      try reflexivity; try lia.
+    + destruct (stm b); assumption.
+    + destruct (stm b); reflexivity.
+    + apply (sqcr_meaning White). destruct (stm b); assumption.
+  - (* wq *)
+    unfold abs_board at 1. cbn [wq]. unfold cr_has_queenside. rewrite D4, wq_apply. unfold touch.
+    apply (right_step (abs_board b) (stm b) White (src m) (dst m) moved (crW b) 1 4 0); try assumption;
+      try reflexivity; try lia.
+    + destruct (stm b); assumption.
+    + destruct (stm b); reflexivity.
+    + apply (sqcr_meaning White). destruct (stm b); assumption.
+  - (* bk *)
+    unfold abs_board at 1. cbn [bk]. unfold cr_has_kingside. rewrite D5, bk_apply. unfold touch.
+    apply (right_step (abs_board b) (stm b) Black (src m) (dst m) moved (crB b) 0 60 63); try assumption;
+      try reflexivity; try lia.
+    + destruct (stm b); assumption.
+    + destruct (stm b); reflexivity.
+    + apply (sqcr_meaning Black). destruct (stm b); assumption.
+  - (* bq *)
+    unfold abs_board at 1. cbn [bq]. unfold cr_has_queenside. rewrite D5, bq_apply. unfold touch.
+    apply (right_step (abs_board b) (stm b) Black (src m) (dst m) moved (crB b) 1 60 56); try assumption;
+      try reflexivity; try lia.
+    + destruct (stm b); assumption.
+    + destruct (stm b); reflexivity.
+    + apply (sqcr_meaning Black). destruct (stm b); assumption.
+  - (* ep *)
+    unfold abs_board at 1. cbn [ep]. rewrite D6, D3, ep_apply. unfold apply_ep.
+    change (turn (abs_board b)) with (stm b).
+    destruct (is_double (abs_board b) m) eqn:Ed; [|reflexivity].
+    destruct (is_double_kind _ _ Hs Hk Ed) as [d1 [E1 [E2' [O1 [O2 [Er Hm]]]]]].
+    change (turn (abs_board b)) with (stm b) in *.
+    destruct (dbl_geom _ _ _ _ Hs E1 E2' Er) as [G1 [G2 [G3 [G4 [G5 G6]]]]].
+    apply occ_false_at in O2.
+    rewrite (ep_word_existsb b moved (src m) (dst m) HC Hs Hd (not_eq_sym Hne) Ha O2).
+    destruct (existsb _ _); [|reflexivity]. rewrite G4. reflexivity.
+Qed.
+
+(** ** 7. the side invariants are kept *)
+Theorem step_invariants b m b' : StepHyp b m ->
+  make_move_new b (src m) (dst m) (promo m) = Some b' ->
+  ep_wf b' /\ crW b' < 4 /\ crB b' < 4.
+Proof.
+  intros H E.
+  destruct (step_master b m H)
+    as [moved [b2 [E2 [Ha [Hs [Hd [Hown [_ [_ [_ [_ [D3 [D4 [D5 D6]]]]]]]]]]]]]].
+  rewrite E in E2. injection E2 as <-.
+  destruct (step_hyp_parts b m H) as [HC [Hok [Hwf [_ Hk]]]].
+  split; [|split; [rewrite D4|rewrite D5]; unfold cr_remove; apply land3_lt].
+  intros e He. rewrite D6 in He. rewrite D3, opp_opp.
+  destruct (is_double (abs_board b) m) eqn:Ed; [|discriminate He].
+  destruct (negb _); [|discriminate He]. injection He as <-.
+  destruct (is_double_kind _ _ Hs Hk Ed) as [d1 [E1 [E2' [O1 [O2 [Er Hm]]]]]].
+  change (turn (abs_board b)) with (stm b) in *.
+  destruct (dbl_geom _ _ _ _ Hs E1 E2' Er) as [G1 [G2 [G3 [G4 [G5 G6]]]]].
+  split; assumption.
+Qed.
+
+(** ** 8. Examples: the hypotheses are satisfiable, the conclusions are not vacuous *)
+Example start_hyp : StepHyp (from_scratch startpos) (mv 12 28).
+Proof.
+  constructor.
+  - apply canonical_consistent, startboard_canonical.
+  - rewrite startboard_abs. vm_compute. reflexivity.
+  - rewrite startboard_abs. vm_compute. tauto.
+  - intros e He. vm_compute in He. discriminate He.
+Qed.
+Example start_step :
+  exists b', make_move_new (from_scratch startpos) 12 28 None = Some b' /\
+             abs_board b' = apply startpos (mv 12 28) /\ stm b' = Black /\ epsq b' = None.
+Proof. eexists. split; [vm_compute; reflexivity|]. vm_compute. auto. Qed.
